@@ -10,6 +10,7 @@ COMPONENTS = {
     "idx": dict(driver_mode="idx",
                 targets=[("idx0", "idx.cpp", "-DIDX_GROUP=0"), ("idx1", "idx.cpp", "-DIDX_GROUP=1"), ("idx2", "idx.cpp", "-DIDX_GROUP=2")]),
     "dyn": dict(driver_mode="dyn", targets=[("dyn", "dyn.cpp", "")]),
+    "var": dict(driver_mode="var", targets=[("var", "var.cpp", "")]),
 }
 
 TRUSTED_COMMON = [
@@ -42,6 +43,10 @@ PROPS = {
              nontrivial=lambda line: len(line.split("|")[2].split()) >= 10),
     "C15": P(comp="dyn", gen=lambda t, s: gens.gen_dyn(t, s + 6), judges=["C15"], kinds=("DYN",),
              nontrivial=lambda line: len(line.split("|")[2].split()) >= 10),
+    "C09": P(comp="var", gen=lambda t, s: gens.gen_var(t, s, "BK"), judges=["C09"], kinds=("BKT",),
+             nontrivial=lambda line: len(line.split("|")[1].split()) >= 2),
+    "C10": P(comp="var", gen=lambda t, s: gens.gen_var(t, s, "EF"), judges=["C10"], kinds=("EFI",),
+             nontrivial=lambda line: len(line.split("|")[1].split()) >= 2),
     "C03": P(comp="idx", gen=lambda t, s: gens.gen_seg(t, s), judges=["C03"], kinds=("SEG",),
              nontrivial=lambda line: len(line.split("|")[1].split()) >= 3),
     "C04": P(comp="idx", gen=lambda t, s: gens.gen_seg(t, s + 5), judges=["C04"], kinds=("SEG",),
